@@ -862,7 +862,84 @@ class Exec:
         self.mem.update(mem0)
         self.forget_stores_in(scratch)
 
+    def _do_while_counted(self, node, out):
+        """do { body } while (cond): the body runs once, and again as long as the condition -- evaluated after the body --
+        holds.  With every stepped variable a closed form of the iteration number K, the condition after iteration K must be
+        linear in K with unit slope, K < H; the iterations are K = 0 .. max(0, H), i.e. a counted loop over [0, H + 1) that runs
+        at least once (flag `at_least_once`; for H >= 0 it is the plain loop)."""
+        cond, body = node.get("c"), node.get("body")
+        if cond is None:
+            return False
+        parts = []
+        c2 = cond
+        if isinstance(cond, dict) and cond.get("k") == "bin" and cond.get("op") in ("<", "<=", ">", ">=", "!="):
+            for side in ("a", "b"):
+                u = cond[side]
+                if isinstance(u, dict) and u.get("k") == "un" and u.get("op") in ("++", "--") and isinstance(u.get("a"), dict) \
+                        and u["a"].get("k") == "ref" and self._tracked_ref(u["a"]):
+                    ref = u["a"]
+                    d = 1 if u["op"] == "++" else -1
+                    l = node["l"]
+                    parts = [{"k": "un", "op": u["op"], "a": ref, "post": False, "l": l, "t": ref.get("t", "int")}]
+                    tested = ref if not u.get("post") else {"k": "bin", "op": "-", "a": ref, "b": {"k": "int", "v": str(d), "l": l, "t": "int"},
+                                                           "l": l, "t": ref.get("t", "int")}
+                    c2 = dict(cond)
+                    c2[side] = tested
+                    break
+        asg, _ = assigned_ids([c2])
+        if asg:
+            return False
+        derived = self.detect_derived(body, parts, None, None)
+        cond_ids = {n.get("id") for n in walk(c2) if n.get("k") == "ref"}
+        prim = [i for i, (kind, d) in derived.items() if i in cond_ids and kind == "add" and sym.const_value(d) in (1, -1)]
+        if len(prim) != 1 or self._own_jumps(body) & {"continue", "break", "return"}:
+            return False
+        pname = self._name_of(prim[0])
+        K = sym.sym("%s#@%d" % (pname, node["l"]))
+        entry = {i: self.env[i] for i in derived}
+        self._ptr_ids = getattr(self, "_ptr_ids", {})
+        for n_ in walk([body] + parts + [c2]):
+            if n_.get("k") == "ref" and n_.get("id") in derived:
+                self._ptr_ids[n_["id"]] = self._is_ptr_ref(n_)
+        self.dry_forget([body] + parts)
+        self.havoc([body] + parts)
+        self._bind_derived(derived, entry, K)
+        b = []
+        st = self.block(body, b)
+        for q in parts:
+            self.ev(q, b, stmt=True)
+        scratch = []
+        c = self.ev(c2, scratch)
+        H = None
+        if not scratch and c[0] == "op" and c[1] in ("<", "<=", ">", ">=", "!="):
+            flip = {"<": ">", "<=": ">=", ">": "<", ">=": "<=", "!=": "!="}
+            lin = sym.linear_in(sym.sub(c[2], c[3]), K)
+            cmpop = hi = None
+            if lin is not None and lin[0] == I(1):
+                cmpop, hi = c[1], sym.neg(lin[1])
+            elif lin is not None and lin[0] == I(-1):
+                cmpop, hi = flip[c[1]], lin[1]
+            if cmpop in ("<", "!="):
+                H = hi
+            elif cmpop == "<=":
+                H = sym.add(hi, I(1))
+        if H is None or sym.contains(H, K) or st != "fall":
+            for i, e0 in entry.items():
+                self.env[i] = e0
+            return False
+        eff = {"e": "loop", "var": K, "lo": ZERO, "cmp": "<", "hi": sym.add(H, I(1)), "step": I(1), "body": b, "l": node["l"], "name": pname,
+               "derived": {self._name_of(i): d for i, (kind, d) in derived.items()}, "at_least_once": True}
+        out.append(eff)
+        self.forget_stores_in(b)
+        self.havoc([body] + parts)
+        # K after the loop: max(1, H + 1) = 1 + max(0, H)
+        end = sym.add(I(1), ("call", "$loop_end", (ZERO, H, I(1), I(CMP_CODE["<"]), I(node["l"]))))
+        self._bind_derived(derived, entry, end)
+        return True
+
     def do_while(self, node, out):
+        if node.get("k") == "do" and self._do_while_counted(node, out):
+            return "fall"
         if node.get("k") == "while":
             sc = self._step_in_condition(node)
             if sc is not None:
